@@ -538,26 +538,51 @@ def symlinked_directories_followed(ctx, rep, R):
         dom = g.dominators()
         heads = [n for n in g.nodes if n.kind == 'for' and any(c in list(ast.walk(n.stmt)) for c in rec)]
         params_ = {a.arg for a in fw.node.args.args}
-        for h in heads:
-            names = {x.id for x in ast.walk(h.stmt.iter) if isinstance(x, ast.Name)} - params_
-            comp_targets = {t.id for c_ in ast.walk(h.stmt.iter) if isinstance(c_, ast.comprehension)
-                            for t in ast.walk(c_.target) if isinstance(t, ast.Name)}
-            for nm in sorted(names - comp_targets):
-                defs = reaching_defs(g, h.id, nm)
+        ydefs = reaching_defs(g, yn, D) if yn is not None else []
+
+        def comp_targets_of(e):
+            return {t.id for c_ in ast.walk(e) if isinstance(c_, ast.comprehension)
+                    for t in ast.walk(c_.target) if isinstance(t, ast.Name)}
+
+        def mentions_dirs(e, at, depth=0):
+            """does the value e (evaluated at node at) depend on the directory list, through locals?"""
+            if depth > 5:
+                return True
+            for nm in sorted({x.id for x in ast.walk(e) if isinstance(x, ast.Name)} - params_ - comp_targets_of(e)):
+                if nm == D:
+                    return True
+                for d2 in reaching_defs(g, at, nm):
+                    if isinstance(d2, (ast.For, ast.With)):
+                        continue
+                    dn2 = node_of(g, d2)
+                    if dn2 is not None and mentions_dirs(d2, dn2, depth + 1):
+                        return True
+            return False
+
+        def check_value(e, at, depth=0):
+            """every local the value e is computed from is the live list or was computed after the yield"""
+            if depth > 5:
+                return
+            for nm in sorted({x.id for x in ast.walk(e) if isinstance(x, ast.Name)} - params_ - comp_targets_of(e)):
+                defs = reaching_defs(g, at, nm)
                 if not defs:
                     continue        # module / builtin name
-                if nm == D:
-                    ydefs = reaching_defs(g, yn, nm) if yn is not None else []
-                    if {id(d) for d in defs} == {id(d) for d in ydefs}:
-                        continue
-                # a value derived from the directories must be derived AFTER the yield
+                if nm == D and {id(d) for d in defs} == {id(d) for d in ydefs}:
+                    continue        # the yielded list itself, as the caller left it
                 for d in defs:
-                    dn = node_of(g, d) if not isinstance(d, (ast.For, ast.With)) else None
-                    derived = D in {x.id for x in ast.walk(d) if isinstance(x, ast.Name)} or nm == D
-                    if not derived:
+                    if isinstance(d, (ast.For, ast.With)):
                         continue
-                    if dn is None or yn is None or yn not in dom.get(dn, ()):
+                    dn = node_of(g, d)
+                    if dn is None:
+                        continue
+                    if nm != D and not mentions_dirs(d, dn):
+                        continue
+                    if yn is None or yn not in dom.get(dn, ()):
                         stale.append('%s = %s' % (nm, norm(d)[:50]))
+                    else:
+                        check_value(d, dn, depth + 1)
+        for h in heads:
+            check_value(h.stmt.iter, h.id)
         if stale:
             extra.append(('the sub-directories examined after the yield come from %s, computed before the '
                           'caller pruned the yielded list' % stale, True))
